@@ -141,6 +141,20 @@ def check(case, res):
   extra = set(after["initials"]) - allowed
   if extra:
     res.fail("initial-value-remains:%s" % sorted(extra)[0], sorted(extra))
+  # "as configured": a configured colour / background colour is the only one left in the document - the colour on the body, the
+  # background colour on every p
+  for name, key, holder in (("Color", "color", "body"), ("BackgroundColor", "bg_color", "p")):
+    if cfg[key] is None:
+      continue
+    if name in after["initials"]:
+      res.fail("initial-value-remains:%s:although-configured" % name, repr(after["initials"][name]))
+    for n in gen_model.all_nodes(after):
+      if n["kind"] == "text" or name not in n["styles"]:
+        continue
+      if n["kind"] != holder:
+        res.fail("style-remains:%s:although-configured:on-%s" % (name, n["kind"]), "%s %s keeps %r" % (n["kind"], n["id"], n["styles"][name]))
+      elif n["styles"][name] != cfg[key]:
+        res.fail("style-remains:%s:not-the-configured-value" % name, "%s %s has %r" % (n["kind"], n["id"], n["styles"][name]))
   sa = cfg["safe_area"]
   seen = {}
   for r in after["regions"]:
